@@ -68,6 +68,10 @@ def gen(seed):
             spec['opt']['j'] = rng.randint(2, 3)
     if seed % 9 == 1:
         _ws.add_binary_stdout_in_resumed_layers(spec, seed)
+    if seed % 9 == 3 and len(world['layers']) >= 2:
+        # worker threads of a -j run pre-empted at almost every line of the runner's code
+        spec['opt']['j'] = 2 + seed % 2
+        spec['knobs']['line_preempt'] = 0.5
     if seed % 9 == 7 and world['layers']:
         # a transient read error on one child's stdout pipe (reported, retried): the child's
         # report still counts
